@@ -207,6 +207,29 @@ Definition chk_refined (q lz : Z) : bool :=
 Definition chk_unrefined (q lz : Z) : bool :=
   negb (lz =? 0) || none_below 300 (Thi q) (2 ^ 64) (2 ^ 64 - 1) (2 ^ 64 - 1) (2 ^ 64).
 
+Lemma chk_refined_spec q lz v hi : chk_refined q lz = true -> 0 <= lz <= 63 ->
+  0 <= v < 2 ^ (64 - lz) -> ~ refined_pair (v * 2 ^ lz) q (2 ^ 64 - 1) hi.
+Proof.
+  unfold chk_refined, refined_pair. generalize (T128 q) 600%nat. intros T fuel Hc Hlz Hv HR.
+  pose proof (refined_ones_range v lz T hi Hlz HR) as R.
+  pose proof (pow2_pos (64 - lz) ltac:(lia)) as Hp2.
+  assert (Hm : 2 ^ (64 - lz) < 2 ^ (128 - lz)) by (apply pow2_lt; lia).
+  cbv zeta in R, Hc.
+  set (m := 2 ^ (128 - lz)) in *. set (s := 2 ^ (64 - lz)) in *.
+  exact (none_below_spec fuel T m (m - s) (m - 1) s v ltac:(lia) ltac:(lia) ltac:(lia) Hc Hv R).
+Qed.
+
+Lemma chk_unrefined_spec q lz v hi : chk_unrefined q lz = true -> 0 <= lz <= 63 ->
+  0 <= v < 2 ^ 64 -> hi * 2 ^ 64 + (2 ^ 64 - 1) <> v * 2 ^ lz * Thi q.
+Proof.
+  unfold chk_unrefined. generalize (Thi q) 300%nat. intros T fuel Hc Hlz Hv HU.
+  pose proof (unrefined_ones v lz T hi Hlz HU) as [E0 R].
+  apply orb_prop in Hc. destruct Hc as [Hc|Hc]; [lia|].
+  pose proof (pow2_pos 64 ltac:(lia)) as Hp.
+  set (m := 2 ^ 64) in *.
+  exact (none_below_spec fuel T m (m - 1) (m - 1) m v ltac:(lia) ltac:(lia) ltac:(lia) Hc Hv R).
+Qed.
+
 Definition chk_q (f : format) (q : Z) : bool :=
   forallb (fun lz => chk_refined q lz && chk_unrefined q lz) (lzs (dexp f q)).
 
@@ -245,14 +268,8 @@ Proof.
   assert (Hvb : v < 2 ^ (64 - lz)).
   { rewrite (pow2_split (64 - lz) 64) in Hv' by lia. replace (64 - (64 - lz)) with lz in Hv' by lia. nia. }
   destruct (declined_at_inv f b q v L Hv Hq Hd) as (hi & Hhi & [HR|[HU _]]).
-  - unfold refined_pair in HR.
-    pose proof (refined_ones_range v lz (T128 q) hi Hlz HR) as R. cbv zeta in R.
-    unfold chk_refined in Hc1. cbv zeta in Hc1.
-    assert (Hm : 2 ^ (64 - lz) < 2 ^ (128 - lz)) by (apply pow2_lt; lia).
-    refine (none_below_spec _ _ _ _ _ _ v _ _ _ Hc1 _ R); lia.
-  - pose proof (unrefined_ones v lz (Thi q) hi Hlz HU) as [E0 R].
-    unfold chk_unrefined in Hc2. rewrite E0 in Hc2. cbn [Z.eqb negb orb] in Hc2.
-    refine (none_below_spec _ _ _ _ _ _ v _ _ _ Hc2 _ R); rewrite ?p2_64; lia.
+  - exact (chk_refined_spec q lz v hi Hc1 Hlz ltac:(lia) HR).
+  - exact (chk_unrefined_spec q lz v hi Hc2 Hlz ltac:(lia) HU).
 Qed.
 
 (** ** Part 5: no deep fallback *)
@@ -371,8 +388,12 @@ Example ex_fallback_hyps :
   let q := -57 in let v := 10240019805240390365 in
   0 < v < 2 ^ 64 /\ SMALLEST_POWER_OF_TEN F64 <= q <= LARGEST_POWER_OF_TEN F64 /\
   compute_float TABLES F64 checked_build q v = Ok (mkExt 16069411522467108780 (-31883)) /\
-  -31883 - INVALID_FP F64 = 885 /\ lz64 v = 0 /\ dexp F64 q = 949.
-Proof. cbv zeta. rewrite p2_64. repeat split; try lia; vm_compute; congruence. Qed.
+  -31883 - INVALID_FP F64 = 885 /\ lz64 v = 0 /\ dexp F64 q = 948.
+Proof.
+  cbv zeta. rewrite p2_64.
+  split; [lia|]. split; [split; vm_compute; discriminate|].
+  repeat split; vm_compute; reflexivity.
+Qed.
 
 (** the hypotheses of [no_deep_fallback_unfolded] on the deepest declined input known
     (estimate exponent exactly -64, see [ex_declined_m64] in LemireFacts6) *)
